@@ -125,6 +125,8 @@ def mutated_documents(rng, tier):
         s2[0] = [doc["uplink"]["confirmed"], doc["uplink"]["pending_len"], doc["uplink"]["pending_data"]]
         out.append(dumps(s2))                            # Uplink given as a sequence
         t = dumps(doc)
+        # "-0": serde_json reads it as the float -0.0, which no integer field accepts
+        out += [t.replace(":0", ":-0", 1), t.replace(",0", ",-0", 1), t.replace("[0", "[-0", 1), t.replace(":0", ":-0")]
         out += [t[:-1], t + "}", t + " ", " " + t, t.replace(":", " : "), t.replace("null", "NULL"), t.replace("false", "0"), "[" + t + "]", "null", "{}", "[]", " ",
                 t.replace('"fcnt_up":', '"fcnt_up":+'), t.replace('"fcnt_up":', '"fcnt_up":0'), t.replace('"fcnt_up":%d' % doc["fcnt_up"], '"fcnt_up":%d.0' % doc["fcnt_up"]),
                 t.replace('"fcnt_up":%d' % doc["fcnt_up"], '"fcnt_up":1e2'), t.replace("[", "[ ").replace(",", " ,\n")]
